@@ -102,6 +102,12 @@ EXPORT errno_t _wcsstr_s_chk(wchar_t *restrict dest, rsize_t dmax,
         CHK_DESTW_OVR("wcsstr_s", destsz, destbos)
     }
 
+    if (unlikely(slen > RSIZE_MAX_WSTR)) {
+        invoke_safe_str_constraint_handler("wcsstr_s: slen exceeds max",
+                                           (void *)dest, ESLEMAX);
+        return RCNEGATE(ESLEMAX);
+    }
+
     /*
      * src points to a string with zero length, or
      * src equals dest, return dest
@@ -115,11 +121,6 @@ EXPORT errno_t _wcsstr_s_chk(wchar_t *restrict dest, rsize_t dmax,
         invoke_safe_str_constraint_handler("wcsstr_s: slen is 0", (void *)dest,
                                            ESZEROL);
         return RCNEGATE(ESZEROL);
-    }
-    if (unlikely(slen > RSIZE_MAX_WSTR)) {
-        invoke_safe_str_constraint_handler("wcsstr_s: slen exceeds max",
-                                           (void *)dest, ESLEMAX);
-        return RCNEGATE(ESLEMAX);
     }
     if (srcbos == BOS_UNKNOWN) {
         BND_CHK_PTR_BOUNDS(src, slen * sizeof(wchar_t));
